@@ -308,10 +308,38 @@ impl Eng {
         discard_oldest: bool,
         mode: MonitoringMode,
     ) -> Result<(u32, f64, u32), StatusCode> {
+        self.create_item_ext(sub, var, client_handle, sampling_ms, queue_size, discard_oldest, mode, TimestampsToReturn::Neither, None)
+    }
+
+    /// As `create_item`, with the timestamps the client wants back and an optional data change filter
+    /// (trigger only, no deadband)
+    pub fn create_item_ext(
+        &mut self,
+        sub: u32,
+        var: usize,
+        client_handle: u32,
+        sampling_ms: f64,
+        queue_size: u32,
+        discard_oldest: bool,
+        mode: MonitoringMode,
+        timestamps: TimestampsToReturn,
+        trigger: Option<DataChangeTrigger>,
+    ) -> Result<(u32, f64, u32), StatusCode> {
+        let filter = match trigger {
+            None => ExtensionObject::null(),
+            Some(trigger) => ExtensionObject::from_encodable(
+                ObjectId::DataChangeFilter_Encoding_DefaultBinary,
+                &DataChangeFilter {
+                    trigger,
+                    deadband_type: DeadbandType::None as u32,
+                    deadband_value: 0f64,
+                },
+            ),
+        };
         let req = CreateMonitoredItemsRequest {
             request_header: self.header(),
             subscription_id: sub,
-            timestamps_to_return: TimestampsToReturn::Neither,
+            timestamps_to_return: timestamps,
             items_to_create: Some(vec![MonitoredItemCreateRequest {
                 item_to_monitor: ReadValueId {
                     node_id: self.w.nodes[var % NVARS].clone(),
@@ -323,7 +351,7 @@ impl Eng {
                 requested_parameters: MonitoringParameters {
                     client_handle,
                     sampling_interval: sampling_ms,
-                    filter: ExtensionObject::null(),
+                    filter,
                     queue_size,
                     discard_oldest,
                 },
